@@ -49,8 +49,12 @@ import numpy as np
 from kapture.io.tar import TarHandler
 spec = json.load(open(sys.argv[1]))
 th = TarHandler(spec['path'], 'a')
-for i, (name, data, cols) in enumerate(spec['appends'][:spec['k']]):
+for i, (name, data, cols, *layout) in enumerate(spec['appends'][:spec['k']]):
     arr = np.array(data, dtype=np.uint8).reshape((-1, cols)) if cols else np.array(data, dtype=np.uint8).reshape((0, 1))
+    if layout and layout[0] == 'F':
+        arr = np.asfortranarray(arr)          # same values, column-major in memory (e.g. np.array([xs, ys]).T)
+    elif layout and layout[0] == 'S':
+        arr = np.repeat(arr, 2, axis=1)[:, ::2]   # same values, strided view
     th.add_array_to_tar(name, arr)
 # the k-th append has returned: die without closing anything
 os.kill(os.getpid(), signal.SIGKILL)
@@ -67,7 +71,7 @@ def gen_history(rng, nmax):
         if rows * cols > 2000:
             rows = 2000 // cols
         data = [rng.randrange(256) for _ in range(rows * cols)]
-        out.append([rng.choice(names), data, cols if rows else 0])
+        out.append([rng.choice(names), data, cols if rows else 0, rng.choice(['C', 'C', 'F', 'F', 'S'])])
     return out
 
 
@@ -194,7 +198,7 @@ def run_impl(c):
 
 def to_model(c):
     if c['op'] == 'kill':
-        return [{'appends': [[n, d] for n, d, _ in c['appends']], 'k': c['k']}]
+        return [{'appends': [[a[0], a[1]] for a in c['appends']], 'k': c['k']}]
     return []
 
 
@@ -225,7 +229,7 @@ def oracle(c):
         if r['content'] is None:
             return {'signature': 'archive-unreadable-after-kill', 'detail': f'k={c["k"]}: {r["open_error"]}'}
         latest = {}
-        for n, d, _ in c['appends'][:c['k']]:
+        for n, d, *_ in c['appends'][:c['k']]:
             latest[n] = d
         for n, d in latest.items():
             if r['content'].get(n) != d:
@@ -254,7 +258,7 @@ def distribution(cases_):
         d[c['op']] = d.get(c['op'], 0) + 1
         if c['op'] == 'kill':
             d['k=%d' % c['k']] = d.get('k=%d' % c['k'], 0) + 1
-            names = [n for n, _, _ in c['appends'][:c['k']]]
+            names = [a[0] for a in c['appends'][:c['k']]]
             if len(names) != len(set(names)):
                 d['with-overwrite'] = d.get('with-overwrite', 0) + 1
     return d
